@@ -2,7 +2,7 @@
     trial sequence of the reference semantics.  Proof file. *)
 From Coq Require Import ZArith List Bool Arith Lia.
 From SP Require Import Design.Flat Design.Layout Design.Sem Comb.CombModel Comb.CombSpec Random.Enum Random.Frag
-  Random.FragSem Random.RunLemmas Random.FragPerm Random.Frag0Enum Random.Frag0Decode Random.Frag0Sem.
+  Random.FragSem Random.RunLemmas Random.FragPerm Random.Frag0Enum Random.Frag0Decode Random.Frag0Sem Random.Implied.
 From SP Require Comb.PrefixProofs.
 Import ListNotations.
 Open Scope nat_scope.
@@ -30,6 +30,12 @@ Lemma flat_map_map_in {A B C} (h : A -> list B) (h' : A -> list C) (F : C -> B) 
 Proof.
   induction l as [|x t IH]; intros H; [reflexivity|].
   cbn [flat_map]. rewrite map_app, (H x (or_introl eq_refl)), IH; [reflexivity|].
+  intros y Hy. apply H. right. exact Hy.
+Qed.
+
+Lemma forallb_ext_in' {A} (f g : A -> bool) l : (forall x, In x l -> f x = g x) -> forallb f l = forallb g l.
+Proof.
+  induction l as [|x t IH]; intros H; [reflexivity|]. cbn [forallb]. rewrite (H x (or_introl eq_refl)), IH; [reflexivity|].
   intros y Hy. apply H. right. exact Hy.
 Qed.
 
@@ -105,7 +111,7 @@ Proof.
 Qed.
 
 
-Lemma decoded_row_length k g : key_ok fb k -> g < n -> length (decoded_row fb k g) = T.
+Lemma decoded_row_length k g : key_ok fb k -> In g (fl_act fb) -> length (decoded_row fb k g) = T.
 Proof.
   intros Hk Hg. rewrite decoded_row_rounds. rewrite <- (sum_rounds k Hk).
   apply flat_map_length_sum. intros rc Hrc. destruct (all_rounds_ok k Hk rc Hrc) as (Hle & _ & Hok).
@@ -126,7 +132,7 @@ Proof.
   rewrite map_nth in H. rewrite (nth_error_nth _ _ 0 Hi) in H. unfold all_levels in H. apply in_seq in H. lia.
 Qed.
 
-Lemma round_row_cells tc cp g : tc <= C -> comp_ok fb tc cp -> g < n ->
+Lemma round_row_cells tc cp g : tc <= C -> comp_ok fb tc cp -> In g (fl_act fb) ->
   Forall (fun cell => exists l, cell = Some l /\ l < nlevels fb g /\ ~ In (FExclude g l) (fl_constraints fb)) (round_row fb tc cp g).
 Proof.
   intros Hle Hok Hg. apply (K_In fb HF Hq) in Hg. apply in_app_iff in Hg.
@@ -165,7 +171,7 @@ Proof.
 Qed.
 
 
-Lemma decoded_row_cells k g : key_ok fb k -> g < n ->
+Lemma decoded_row_cells k g : key_ok fb k -> In g (fl_act fb) ->
   Forall (fun cell => exists l, cell = Some l /\ l < nlevels fb g /\ ~ In (FExclude g l) (fl_constraints fb)) (decoded_row fb k g).
 Proof.
   intros Hk Hg. rewrite decoded_row_rounds. apply Forall_flat_map. intros rc Hrc.
@@ -180,7 +186,7 @@ Proof.
   - apply IH. intros cl Hc. apply H. right. exact Hc.
 Qed.
 
-Lemma decoded_row_not_excluded k g l : key_ok fb k -> g < n -> In (FExclude g l) (fl_constraints fb) ->
+Lemma decoded_row_not_excluded k g l : key_ok fb k -> In g (fl_act fb) -> In (FExclude g l) (fl_constraints fb) ->
   count_level l (decoded_row fb k g) = 0.
 Proof.
   intros Hk Hg Hex. apply count_level_none. intros cell Hc E.
@@ -223,14 +229,14 @@ Qed.
 Lemma tseq_length : length s = n.
 Proof. unfold tseq_of_run. rewrite map_length, seq_length. reflexivity. Qed.
 
-Lemma f0_factor_ok f fd : nth_error (s_factors S0) f = Some fd -> factor_ok S0 s f fd = true.
+Lemma f0_factor_ok f fd : In f (fl_act fb) -> nth_error (s_factors S0) f = Some fd -> factor_ok S0 s f fd = true.
 Proof.
-  intros Hfd. destruct (f0_sem_factor fb HF f fd Hfd) as (Hf & Hnl & Hsu & Hder).
+  intros Hact Hfd. destruct (f0_sem_factor fb HF f fd Hact Hfd) as (Hf & Hnl & Hsu & Hder).
   unfold factor_ok. rewrite tseq_row by exact Hf. rewrite decoded_row_length by assumption.
   rewrite (f0_sem_trials fb HF), Nat.eqb_refl. cbn [andb].
   apply forallb_forall. intros t Ht. apply in_seq in Ht.
   unfold get_cell, cell. rewrite tseq_row by exact Hf.
-  pose proof (decoded_row_cells k f Hk Hf) as Hcells.
+  pose proof (decoded_row_cells k f Hk Hact) as Hcells.
   pose proof (Forall_nth' _ _ t None Hcells ltac:(rewrite decoded_row_length by assumption; lia)) as [l [El [Hl _]]].
   rewrite El. unfold applies. rewrite Hder, Hnl, Hsu. rewrite Nat.div_1_r, Nat.mul_1_r, El.
   cbn [cell_eqb andb]. rewrite Nat.eqb_refl.
@@ -362,22 +368,130 @@ Proof.
     exact H.
 Qed.
 
-(** factors and the sampled crossing are in order: validity reduces to the other crossings and the constraints *)
-Theorem f0_valid_base : valid_b S0 s =
+(** * The implied factors and the whole sequence *)
+Local Notation fs := (fill_implied fb s).
+
+Lemma fill_length : length fs = n.
+Proof. unfold fill_implied. rewrite map_length, seq_length. reflexivity. Qed.
+
+Lemma fill_nth g : g < n -> nth g fs [] = if isact fb g then nth g s [] else implied_row fb s g.
+Proof.
+  intros Hg. unfold fill_implied.
+  set (F := fun f0 : nat => if isact fb f0 then nth f0 s [] else implied_row fb s f0).
+  rewrite (nth_indep (map F (seq 0 n)) [] (F 0)) by (rewrite map_length, seq_length; exact Hg).
+  rewrite (map_nth F), seq_nth by exact Hg. reflexivity.
+Qed.
+
+Lemma fill_act_row g : In g (fl_act fb) -> nth g fs [] = nth g s [].
+Proof.
+  intros Hg. rewrite fill_nth by (apply (act_lt fb HF); exact Hg). rewrite (proj2 (isact_In fb HF g) Hg). reflexivity.
+Qed.
+
+Lemma fill_act_cell g t : In g (fl_act fb) -> get_cell fs g t = get_cell s g t.
+Proof. intros Hg. unfold get_cell. rewrite fill_act_row by exact Hg. reflexivity. Qed.
+
+(** levels of the factors of [act_design] in the candidate *)
+Lemma act_cell g t : In g (fl_act fb) -> t < T -> exists l, get_cell s g t = Some l /\ l < nlevels fb g.
+Proof.
+  intros Hg Ht. unfold get_cell. rewrite tseq_row by (apply (act_lt fb HF); exact Hg).
+  pose proof (decoded_row_cells k g Hk Hg) as Hcells.
+  pose proof (Forall_nth' _ _ t None Hcells ltac:(rewrite decoded_row_length by assumption; lia)) as [l [El [Hl _]]].
+  exists l. auto.
+Qed.
+
+Lemma sem_args_eqb a b : Sem.args_eqb a b = Enum.args_eqb a b.
+Proof.
+  assert (Hrow : forall x y : list (option nat), list_eqb cell_eqb x y = olist_eqb x y).
+  { induction x as [|u x IHx]; intros [|v y]; cbn [list_eqb olist_eqb]; try reflexivity.
+    rewrite IHx. f_equal. }
+  unfold Sem.args_eqb. revert b. induction a as [|x a IH]; intros [|y b]; cbn [list_eqb Enum.args_eqb]; try reflexivity.
+  rewrite IH, Hrow. reflexivity.
+Qed.
+
+(** an implied factor passes its check on the filled sequence *)
+Lemma f0_implied_ok f fd : ~ In f (fl_act fb) -> nth_error (s_factors S0) f = Some fd -> factor_ok S0 fs f fd = true.
+Proof.
+  intros Hact Hfd. destruct (f0_sem_factor_at fb HF f fd Hfd) as (Hf & _).
+  destruct (f0_sem_implied fb HF f fd Hact Hfd) as (d & w & Hd & Hw & Hnl & Hsu & Hder & Hdeps & Hex).
+  set (dw := {| w_deps := win_deps w; w_width := 1; w_stride := 1; w_start := 0; w_table := map lv_accepts (ff_levels d) |}) in *.
+  assert (Hpick : forall t, t < s_trials S0 -> pick fd dw s t <> None).
+  { intros t Ht. rewrite (f0_sem_trials fb HF) in Ht. unfold pick.
+    rewrite (window_args_within fd dw eq_refl Hsu s t). cbn [w_deps dw].
+    (* the levels of the factors it reads *)
+    assert (Hargs : exists args, map (fun x => [get_cell s x t]) (win_deps w) = map (fun a => [Some a]) args /\
+                                 In args (product (map (all_levels fb) (win_deps w)))).
+    { clear - Hdeps Ht HF Hq Hk Hr. induction (win_deps w) as [|x xs IH].
+      - exists []. split; [reflexivity | left; reflexivity].
+      - destruct IH as (args & E & Hin); [intros y Hy; apply Hdeps; right; exact Hy|].
+        destruct (act_cell x t (Hdeps x (or_introl eq_refl)) Ht) as (l & El & Hl).
+        exists (l :: args). cbn [map]. rewrite El, E. split; [reflexivity|].
+        cbn [product]. apply in_flat_map. exists l. split; [unfold all_levels; apply in_seq; lia|].
+        apply in_map. exact Hin. }
+    destruct Hargs as (args & Eargs & Hin). rewrite Eargs.
+    unfold tables_exact in Hex. rewrite forallb_forall in Hex. specialize (Hex args Hin). apply Nat.eqb_eq in Hex.
+    destruct (filter (fun l => predicate fb f l (map (fun a => [Some a]) args)) (all_levels fb f)) as [|l0 rest] eqn:Ef; [discriminate|].
+    assert (Hl0 : In l0 (filter (fun l => predicate fb f l (map (fun a => [Some a]) args)) (all_levels fb f))) by (rewrite Ef; left; reflexivity).
+    apply filter_In in Hl0. destruct Hl0 as [Hl0 Hp0].
+    intros Hnone. pose proof (find_none _ _ Hnone l0) as Hn. cbv beta in Hn.
+    assert (Hin0 : In l0 (seq 0 (f_nlevels fd))) by (rewrite Hnl; exact Hl0). specialize (Hn Hin0).
+    unfold Sem.accepts in Hn. cbn [w_table dw] in Hn. unfold predicate, level_accepts, levels_of in Hp0. rewrite Hd in Hp0.
+    assert (Etab : nth l0 (map lv_accepts (ff_levels d)) [] = match nth_error (ff_levels d) l0 with Some lv => lv_accepts lv | None => [] end).
+    { destruct (nth_error (ff_levels d) l0) as [lv|] eqn:E.
+      - rewrite (nth_indep _ [] (lv_accepts lv)) by (rewrite map_length; apply nth_error_Some; congruence).
+        rewrite (map_nth lv_accepts). rewrite (nth_error_nth _ _ lv E). reflexivity.
+      - apply nth_overflow. rewrite map_length. apply nth_error_None. exact E. }
+    rewrite Etab in Hn. rewrite (existsb_ext_l _ (Enum.args_eqb (map (fun a => [Some a]) args))) in Hn by (intros x; apply sem_args_eqb).
+    congruence. }
+  apply (factor_ok_derived S0 f fd dw Hder eq_refl eq_refl eq_refl Hsu s fs Hpick).
+  - intros x t Hx. apply fill_act_cell. apply Hdeps. exact Hx.
+  - rewrite fill_nth by exact Hf.
+    destruct (isact fb f) eqn:Ea; [apply (isact_In fb HF) in Ea; contradiction|].
+    unfold implied_row. fold S0. rewrite Hfd, Hder. rewrite (derive_row_spec S0 f fd dw Hder eq_refl eq_refl eq_refl Hsu s Hpick). reflexivity.
+Qed.
+
+Lemma coded_constraint_act dc : In dc (s_constraints S0) -> not_latin dc = true /\ In (k_factor dc) (fl_act fb).
+Proof.
+  rewrite (f0_sem_constraints fb HF). intros Hdc. apply in_flat_map in Hdc. destruct Hdc as [x [Hx Hdc]].
+  pose proof (f0_constraints fb (f0_unpack fb HF) x Hx) as Hc.
+  destruct x; cbn [constraint_f2] in Hc; try discriminate; cbn [CodeSem.code_constraint] in Hdc; try (destruct Hdc; fail);
+    destruct Hdc as [E | []]; subst dc; (split; [reflexivity|]); cbn [CodeSem.mk_c k_factor];
+    repeat (apply andb_prop in Hc; destruct Hc as [Hc _]); apply (isact_In fb HF); exact Hc.
+Qed.
+
+(** factors and the sampled crossing are in order: validity of the whole sequence (implied factors added)
+    reduces to the other crossings and the constraints on the candidate *)
+Theorem f0_valid_base : valid_b S0 fs =
   forallb (crossing_ok S0 s) (f0_ocrossings fb) && forallb (constraint_ok S0 s) (s_constraints S0).
 Proof.
-  unfold valid_b. rewrite tseq_length, (f0_sem_factors_length fb HF), Nat.eqb_refl.
-  rewrite (f0_sem_crossings fb HF). cbn [forallb andb].
-  rewrite f0_crossing_ok. cbn [andb].
-  replace (forallb (fun p => factor_ok S0 s (fst p) (snd p)) (index_list (s_factors S0))) with true; [reflexivity|].
-  symmetry. apply forallb_forall. intros [f fd] Hin. cbn [fst snd].
-  unfold index_list in Hin. apply In_nth_error in Hin. destruct Hin as [i Hi].
-  apply nth_error_combine in Hi. destruct Hi as [H1 H2].
-  assert (f = i).
-  { pose proof H1 as H1'. apply nth_error_nth with (d := 0) in H1'.
-    assert (i < length (seq 0 (length (s_factors S0)))) by (apply nth_error_Some; congruence).
-    rewrite seq_length in H. rewrite seq_nth in H1' by exact H. lia. }
-  subst i. apply f0_factor_ok. exact H2.
+  unfold valid_b. rewrite fill_length, (f0_sem_factors_length fb HF), Nat.eqb_refl.
+  replace (forallb (fun p => factor_ok S0 fs (fst p) (snd p)) (index_list (s_factors S0))) with true.
+  2:{ symmetry. apply forallb_forall. intros [f fd] Hin. cbn [fst snd].
+      unfold index_list in Hin. apply In_nth_error in Hin. destruct Hin as [i Hi].
+      apply nth_error_combine in Hi. destruct Hi as [H1 H2].
+      assert (f = i).
+      { pose proof H1 as H1'. apply nth_error_nth with (d := 0) in H1'.
+        assert (i < length (seq 0 (length (s_factors S0)))) by (apply nth_error_Some; congruence).
+        rewrite seq_length in H. rewrite seq_nth in H1' by exact H. lia. }
+      subst i. destruct (in_dec Nat.eq_dec f (fl_act fb)) as [Ha | Hna].
+      - destruct (f0_sem_factor fb HF f fd Ha H2) as (_ & _ & _ & Hder).
+        rewrite (factor_ok_ext_basic S0 fs s f fd Hder (fill_act_row f Ha)). apply f0_factor_ok; assumption.
+      - apply f0_implied_ok; assumption. }
+  cbn [andb]. rewrite (f0_sem_crossings fb HF). cbn [forallb].
+  rewrite (crossing_ok_ext S0 fs s (f0_crossing fb)) by (intros f t Hf; apply fill_act_cell; apply (f0_cact_main fb HF); exact Hf).
+  rewrite f0_crossing_ok. cbn [andb]. f_equal.
+  - apply forallb_ext_in'. intros cr Hcr. apply crossing_ok_ext. intros f t Hf. apply fill_act_cell.
+    (* the factors of a coded crossing are those of a crossing of the block *)
+    unfold f0_ocrossings in Hcr.
+    assert (G : forall cs i, (forall ci, In ci cs -> In ci (fl_crossings fb)) -> In cr (CodeSem.code_crossings fb i cs) ->
+                exists ci, In ci (fl_crossings fb) /\ c_factors cr = ci).
+    { induction cs as [|ci t0 IH]; intros i Hall Hin; [destruct Hin|]. cbn [CodeSem.code_crossings] in Hin.
+      destruct Hin as [E | Hin].
+      - exists ci. split; [apply Hall; left; reflexivity|]. subst cr. reflexivity.
+      - apply (IH (S i)); [intros x Hx; apply Hall; right; exact Hx | exact Hin]. }
+    destruct (G _ 1 ltac:(intros ci Hci; rewrite (f0_crossings fb (f0_unpack fb HF)); right; exact Hci) Hcr) as (ci & Hci & E).
+    rewrite E in Hf. apply (f0_cact fb (f0_unpack fb HF) ci f Hci Hf).
+  - apply forallb_ext_in'. intros dc Hdc. destruct (coded_constraint_act dc Hdc) as [Hnl Ha].
+    apply (constraint_ok_ext S0 fs s dc Hnl). apply fill_act_row. exact Ha.
 Qed.
 
 End F0V.
